@@ -512,7 +512,7 @@ PROPS = {
         classify=cls_c17,
         nontrivial=lambda line: '"op":"reset"' not in line,
         rule="place: random configurations (queue tree of depth <=3 with managed leaf/parent queues, submit/admin ACL texts incl. wildcards, group-only, empty and invalid entries, child templates (max applications, resources and 1..4 behaviour properties: application.sort.policy / sort.priority, priority.policy / offset, preemption.policy / delay, quota.preemption.delay, unschedasks backoff / delay, with valid, capitalised and bogus values), now and then a configured queue named @recovery@; "
-             "0..4 placement rules provided/user/tag/fixed with parent rules up to depth 2, create flags, allow/deny filters (also Deny/DENY) with user/group lists or single-entry regular expressions, fixed values that are existing leaves/parents, "
+             "0..4 placement rules provided/user/tag/fixed with parent rules up to depth 2, create flags, allow/deny filters (also Deny/DENY) with single names, single-entry regular expressions and user/group lists of 2..4 entries of which none / some / all are usable names (invalid characters, regexp-looking entries, empty strings, leading digits), fixed values that are existing leaves/parents, "
              "new names, root-prefixed names without dot, recovery queue spellings, values only the rule constructor refuses) loaded through scheduler.NewClusterContext "
              "(configurations the validator rejects are counted and skipped); per configuration 6..19 operations: application submissions through ClusterContext.handleRMUpdateApplicationEvent (users incl. names with dots and '$', 1..3 groups, "
              "requested queue: empty, existing leaf/parent in several capitalisations, unqualified, new below leaf/parent, recovery queue spellings, empty parts, invalid characters, 64/65 character parts; namespace/team tags; force-create tag), "
@@ -741,7 +741,7 @@ PROPS = {
         rule="lock: (1) the lock-order table REGENERATED by translator T4 (extract/lockorder.go: go/packages + go/ssa + VTA call graph over every non-test package under pkg/; per function a flow-sensitive may-hold analysis of Lock/RLock..Unlock/RUnlock incl. defer; transitive acquisitions of callees with one witness chain; "
              "calls into code outside the repository call back only what is handed over; same-class edges refined by access paths into same/up/down/unknown) is judged by the driver against the rank and the pattern lists of YkModel/LockPolicy.lean: every edge outside the exclusion list must be ranked; "
              "(2) replays on the real code, each in a child process with go-deadlock enabled, a timeout and a goroutine dump: 150 rounds of a required-node ask cancelling another application's reservation under concurrent RM traffic and readers (excluded edge: must not block); "
-             "3000 rounds of add application / add ask / remove application against the scheduling loop (known finding: orphan allocations); and the regression scenarios of repaired defects that must run clean: a configuration reload that drops a partition (must return, partition gone), rejections against readers of the rejected applications, removal of a user's last application against the scheduling loop; "
+             "3000 rounds of add application / add ask / remove application against the scheduling loop (known finding: orphan allocations); and the regression scenarios of repaired defects that must run clean: a configuration reload that drops a partition (must return, partition gone), rejections against readers of the rejected applications, removal of a user's last application against the scheduling loop, node add / resize / remove events against readers of the root queue maximum and the partition total (3 s; a runtime fault is a violation) plus a deterministic ownership check at quiescence (a resource handed to Queue.SetMaxResource and changed afterwards by the caller must not show in the root maximum; getters hand out copies; root maximum = partition total after every kind of node event); "
              "(2b) concurrent FINAL-STATE scenarios (harness/lockfinal.go), each in a child process, a few seconds: 2-3 goroutines (scheduling-loop style, RM-handler style, node handler) released at the same instant by a spin barrier for thousands of rounds drive the real objects from a clean state, then the settled state is compared with the sum of what they did: "
              "first touch of fresh users / groups / queue paths through ugm.Manager (Headroom, CanRunApp, IncreaseTrackedResource; after the matching decreases the trackers are gone), release of a user's last application against the first allocation of the next, queue allocated over root.parent.leaf (TryInc / forced Inc / Dec), node allocations (TryAdd / add / remove / foreign / capacity), "
              "get-or-create of a dynamic queue and of the recovery queue by concurrent submissions (one object per path, every application in it), the node collection under the fair and binpacking policies while 3 goroutines change the same node at the same instant and a reader walks the iterators (at every quiet point both iterators visit every node once, in the order of the scores recomputed from the current node state), and asks / allocations / releases / node updates on a partition against the scheduling loop (partition counters = node allocations = application allocations = queue = tracked user usage; all zero after removing the applications); "
